@@ -736,12 +736,32 @@ type bnode struct {
 	path     []Op
 	nfiles   int
 	inflight bool
+	left     int // remaining depth
+}
+
+type rootSpec struct {
+	path          []Op
+	depth, shared int // BFS depth below the root; number of levels explored by every worker before dealing
+}
+
+func w(t int64) Op { return Op{K: "W", T: t} }
+
+// roots: the empty shard, and two pre-built layouts (histories themselves) from which the BFS continues, so that
+// compactions of 2 and 3 generations with overwrites across generations are reached within the depth bound.
+func roots(thorough bool) []rootSpec {
+	snap := Op{K: "Snap"}
+	r1 := []Op{w(1), w(2), snap, w(1), w(3), snap}
+	r2 := []Op{w(1), snap, w(1), w(2), snap, w(2), w(3), snap}
+	if thorough {
+		return []rootSpec{{nil, 6, 3}, {r1, 4, 2}, {r2, 3, 1}}
+	}
+	return []rootSpec{{nil, 4, 3}, {r1, 3, 1}, {r2, 2, 1}}
 }
 
 func TestCheck(t *testing.T) {
 	vlib.Main(t, &vlib.Check{
 		ID: "C01", Level: "model_checking",
-		Rule: "histories over the alphabet {W(f,t) for t∈{1,2,3} (float field, value = running counter, so every overwrite is distinguishable), Wbatch(f,[t=3,t=1]) in one WritePoints call, W(g,t=2) on a second field of type integer, Snap (Engine.WriteSnapshot), SnapBegin / SnapEnd (the two halves of Engine.doWriteSnapshot: close WAL segment + Cache.Snapshot | Deduplicate + writeSnapshotAndCommit, so that writes, reads, compactions and a reopen happen while a cache snapshot is in flight), Compact[i..j] of every interval of ≥2 adjacent generations with the engine's fast (CompactFast) and full (CompactFull) strategies, Opt (optimize strategy at aggressive points-per-block over all files), Reopen (close + open, WAL replay)} on a real tsm1.Engine with WAL; explicit-state BFS from the empty shard to depth D (quick 5, thorough 7): a transition replays the whole history on a fresh engine, then reads every range [a,b]⊆[0,4] ascending and descending through CreateCursorIterator array cursors for both fields, and the TSM-resident part from every seek time in both directions through KeyCursor, and compares with a map model (latest acknowledged value per timestamp); the reached state is keyed by what the implementation holds (cache contents and, per TSM file oldest→newest, level and contents, each stored version abstracted to latest/overwritten) and expanded only once. The first 3 levels are explored by every worker, the depth-3 frontier is dealt round-robin. states = distinct canonical keys, transitions = executed histories, traces = histories replayed on the implementation; non-trivial = transitions whose history contains a Snap or compaction and an overwrite",
+		Rule: "histories over the alphabet {W(f,t) for t∈{1,2,3} (float field, value = running counter, so every overwrite is distinguishable), Wbatch(f,[t=3,t=1]) in one WritePoints call, W(g,t=2) on a second field of type integer, Snap (Engine.WriteSnapshot), SnapBegin / SnapEnd (the two halves of Engine.doWriteSnapshot: close WAL segment + Cache.Snapshot | Deduplicate + writeSnapshotAndCommit, so that writes, reads, compactions and a reopen happen while a cache snapshot is in flight), Compact[i..j] of every interval of ≥2 adjacent generations with the engine's fast (CompactFast) and full (CompactFull) strategies, Opt (optimize strategy at aggressive points-per-block over all files), Reopen (close + open, WAL replay)} on a real tsm1.Engine with WAL; explicit-state BFS to depth D from three roots: the empty shard (D = 4 quick, 6 thorough), the 2-generation layout W1 W2 Snap W1 W3 Snap (D = 3, 4) and the 3-generation layout W1 Snap W1 W2 Snap W2 W3 Snap (D = 2, 3): a transition replays the whole history on a fresh engine, then reads every range [a,b]⊆[0,4] ascending and descending through CreateCursorIterator array cursors for both fields, and the TSM-resident part from every seek time in both directions through KeyCursor, and compares with a map model (latest acknowledged value per timestamp); the reached state is keyed by what the implementation holds (cache contents and, per TSM file oldest→newest, level and contents, each stored version abstracted to latest/overwritten) and expanded only once. The first 1–3 levels below each root are explored by every worker, that frontier is dealt round-robin. The build uses DefaultMaxPointsPerBlock = 2 instead of 1000 (small-constant build) so that the three timestamps of a field span two TSM blocks and block-level merging in CompactFast/CompactFull/KeyCursor is exercised. states = distinct canonical keys, transitions = executed histories, traces = histories replayed on the implementation; non-trivial = transitions whose history contains a Snap or compaction and an overwrite",
 		Assumptions: []string{
 			"the engine is deterministic for a given history when its background loops are off (prefixes are re-executed, not re-checked)",
 			"WAL segment layout and tsi1/series-file contents are not part of the state key (one shared tsi1 index + series file per worker, holding the single series key)",
@@ -750,25 +770,24 @@ func TestCheck(t *testing.T) {
 		},
 		QuickBudgetS: 40, ThoroughBudgetS: 780,
 		Run: func(c *vlib.Ctx) {
-			depth := 5
-			if c.Thorough() {
-				depth = 7
-			}
-			const d0 = 3
 			ix, err := openIndex()
 			if err != nil {
 				c.HarnessError("open index: " + err.Error())
 				return
 			}
 			defer ix.close()
-			seen := map[string]bool{}
-			maxDepthDone := 0
-			// expand runs one BFS level from frontier; report=false: silent (redundant phase A on shards ≠ 0)
-			expand := func(frontier []bnode, report bool) (next []bnode, complete bool) {
+			seen := map[string]int{} // canonical state -> largest remaining depth it was expanded with
+			complete := true
+			// expand runs one BFS level; report=false: silent (the shared first levels on shards ≠ 0)
+			expand := func(frontier []bnode, report bool) (next []bnode) {
 				for _, nd := range frontier {
+					if nd.left <= 0 {
+						continue
+					}
 					for _, o := range opsFor(nd.nfiles, nd.inflight) {
 						if c.Expired() {
-							return next, false
+							complete = false
+							return next
 						}
 						p := append(append([]Op{}, nd.path...), o)
 						res := ix.execute(p, false)
@@ -799,50 +818,57 @@ func TestCheck(t *testing.T) {
 								c.Sample(map[string]any{"history": pathString(p), "state": res.key})
 							}
 						}
-						if !seen[res.key] {
-							seen[res.key] = true
-							next = append(next, bnode{path: p, nfiles: res.nfiles, inflight: res.inflight})
+						if prev, ok := seen[res.key]; !ok || prev < nd.left-1 {
+							seen[res.key] = nd.left - 1
+							next = append(next, bnode{path: p, nfiles: res.nfiles, inflight: res.inflight, left: nd.left - 1})
 						}
 					}
 				}
-				return next, true
+				return next
 			}
-			root := ix.execute(nil, false)
-			if root.herr != "" {
-				c.HarnessError("root: " + root.herr)
-				return
-			}
-			seen[root.key] = true
-			if c.Shard == 0 {
-				c.State(root.key)
-			}
-			frontier := []bnode{{}}
-			ok := true
-			for d := 1; d <= d0 && d <= depth && ok; d++ {
-				frontier, ok = expand(frontier, c.Shard == 0)
-				if ok {
-					maxDepthDone = d
+			// shared levels: every worker explores them (only shard 0 reports), then the frontier is dealt round-robin
+			var frontier []bnode
+			for _, rt := range roots(c.Thorough()) {
+				res := ix.execute(rt.path, true)
+				if res.herr != "" {
+					c.HarnessError("root " + pathString(rt.path) + ": " + res.herr)
+					continue
 				}
-			}
-			if ok && depth > d0 {
-				var mine []bnode
-				for i, nd := range frontier {
-					if c.Mine(int64(i)) {
-						mine = append(mine, nd)
+				if c.Shard == 0 {
+					c.Eval(1)
+					c.Trace(1)
+					c.Outcome("root:files" + fmt.Sprint(res.nfiles))
+					for _, v := range res.verdicts {
+						c.Violation(v.sig, pathString(rt.path)+": "+v.msg, Case{Path: rt.path})
+					}
+					if len(res.verdicts) == 0 {
+						c.State(res.key)
 					}
 				}
-				frontier = mine
-				for d := d0 + 1; d <= depth && ok && len(frontier) > 0; d++ {
-					frontier, ok = expand(frontier, true)
-					if ok {
-						maxDepthDone = d
-					}
+				if len(res.verdicts) > 0 {
+					continue
+				}
+				if prev, ok := seen[res.key]; !ok || prev < rt.depth {
+					seen[res.key] = rt.depth
+				}
+				fr := []bnode{{path: rt.path, nfiles: res.nfiles, inflight: res.inflight, left: rt.depth}}
+				for l := 0; l < rt.shared && complete; l++ {
+					fr = expand(fr, c.Shard == 0)
+				}
+				frontier = append(frontier, fr...)
+			}
+			var mine []bnode
+			for i, nd := range frontier {
+				if c.Mine(int64(i)) {
+					mine = append(mine, nd)
 				}
 			}
-			if !ok {
-				c.Cap(fmt.Sprintf("budget expired: some shard completed only depth %d of %d", maxDepthDone, depth))
+			for complete && len(mine) > 0 {
+				mine = expand(mine, true)
 			}
-			c.Extra(fmt.Sprintf("shards_completed_depth_%d", maxDepthDone), 1)
+			if !complete {
+				c.Cap("budget expired before the BFS of this shard reached its depth bound")
+			}
 		},
 		Replay: func(c *vlib.Ctx, raw json.RawMessage) (bool, string) {
 			var cs Case
